@@ -207,3 +207,34 @@ for _n, _f in {'canary:adjoint.homomorphic': _canary_adjoint, 'canary:slash.func
                'canary:constructors': _canary_constructors}.items():
     _c = lemma(_n, _f, ())
     _c.canary = True
+
+
+def _canary_type_model(interp):
+    """over the hypotheses of the type refinement, the flattening recursion and the iterated adjoints: false statements"""
+    from .functors import _D_unit, _D_snoc, _adjpow_def, _base_img
+    from .types import _ob_list, _adj_list
+    ex, w = interp.ex, interp.world
+    ex.nth_by_parts = True
+    F = VFunctor('F', ar_factory='rigid.Diagram')
+    a, x = z3.Const('a', T.TyS), z3.Const('x', T.Ob)
+    _D_unit(ex, F)
+    _D_snoc(ex, F, a, x)
+    B = _base_img(ex, F, x)
+    _adjpow_def(interp, B, T.ob_z(x))
+    s = _ob_list(ex, 's')
+    back = _adj_list(interp, s, 'l')
+    k = T.fresh('k', T.IntS)
+    ex.assume(z3.And(0 <= k, k < s.length()))
+    lst = VList.of_base(ex.register_base(BaseList('tys', z3.Int('n_tys'), lambda i: VTy(z3.Function('tys.at', T.IntS, T.TyS)(i)), 'ty')))
+    ex.assume(lst.length() > 0)
+    fl = ex.flat_of(lst)
+    ex.flat_step(fl.flat, T.I(0))
+    ex.prove('canary:D(a ++ (x,)) == D((x,)) ++ D(a)', T.ty_eq(F.FT(T.ty_concat(a, z3.Unit(x))), T.ty_concat(F.FT(z3.Unit(x)), F.FT(a))))
+    ex.prove('canary:the left adjoint of a list keeps the order', ex.list_at(back, k).t == T.ob_l(ex.list_at(s, k).t))
+    ex.prove('canary:adjpow(B, z).l == adjpow(B, z)', T.ty_eq(w.ty_adjoint(interp, T.adjpow(B, T.ob_z(x)), 'l'), T.adjpow(B, T.ob_z(x))))
+    ex.prove('canary:the flattening of a non-empty list of types is empty', T.ty_eq(fl.t, T.EMPTY))
+
+
+from pyvc.values import BaseList      # noqa: E402
+_c = lemma('canary:type.model', _canary_type_model, ())
+_c.canary = True
